@@ -103,6 +103,15 @@ Theorem builtin_atlas_length b :
   In b fonts -> bf_rawlen b = bytes_per_row (f_iw (bf_font b)) * f_ih (bf_font b).
 Proof. intros H. apply Z.eqb_eq. exact (proj1 (forallb_forall _ _) all_atlas_lengths b H). Qed.
 
+Definition builtin_wf_b (b : bfont) : bool := font_wfb (bf_font b) && (f_sp (bf_font b) =? 0).
+Lemma all_builtin_wf : forallb builtin_wf_b fonts = true.
+Proof. vm_compute. reflexivity. Qed.
+Lemma builtin_font_wf_aux b : In b fonts -> font_wf (bf_font b) /\ f_sp (bf_font b) = 0.
+Proof.
+  intros H. pose proof (proj1 (forallb_forall _ _) all_builtin_wf b H) as E. unfold builtin_wf_b in E.
+  apply andb_prop in E. destruct E as [E1 E2]. split; [apply font_wfb_spec; assumption|lia].
+Qed.
+
 (* ---- the atlas holds a whole number of cells and at least one cell per mapped character *)
 Definition atlas_capacity_b (b : bfont) : bool :=
   let f := bf_font b in
@@ -111,15 +120,30 @@ Definition atlas_capacity_b (b : bfont) : bool :=
 Lemma all_atlas_capacity : forallb atlas_capacity_b fonts = true.
 Proof. vm_compute. reflexivity. Qed.
 
-(* ---- font records are well formed, without spacing *)
-Definition builtin_wf_b (b : bfont) : bool := font_wfb (bf_font b) && (f_sp (bf_font b) =? 0).
-Lemma all_builtin_wf : forallb builtin_wf_b fonts = true.
+(* the atlas has exactly the rows the mapping needs: height = ceil(#chars / glyphs_per_row) * cell height *)
+Definition atlas_rows_b (b : bfont) : bool :=
+  let f := bf_font b in
+  let gpr := f_iw f / f_cw f in
+  f_ih f =? ((Z.of_nat (length (builtin_chars b)) + gpr - 1) / gpr) * f_ch f.
+Lemma all_atlas_rows : forallb atlas_rows_b fonts = true.
 Proof. vm_compute. reflexivity. Qed.
-Theorem builtin_font_wf b : In b fonts -> font_wf (bf_font b) /\ f_sp (bf_font b) = 0.
+Theorem builtin_atlas_rows b :
+  In b fonts ->
+  let f := bf_font b in
+  let gpr := f_iw f / f_cw f in
+  f_iw f = gpr * f_cw f /\ f_ih f = ((Z.of_nat (length (builtin_chars b)) + gpr - 1) / gpr) * f_ch f.
 Proof.
-  intros H. pose proof (proj1 (forallb_forall _ _) all_builtin_wf b H) as E. unfold builtin_wf_b in E.
-  apply andb_prop in E. destruct E as [E1 E2]. split; [apply font_wfb_spec; assumption|lia].
+  intros H. cbn zeta.
+  pose proof (proj1 (forallb_forall _ _) all_atlas_rows b H) as E1. unfold atlas_rows_b in E1.
+  pose proof (proj1 (forallb_forall _ _) all_atlas_capacity b H) as E2. unfold atlas_capacity_b in E2.
+  destruct (builtin_font_wf_aux b H) as [Hw _]. red in Hw.
+  split; [|lia]. apply andb_prop in E2. destruct E2 as [E2 _]. apply andb_prop in E2. destruct E2 as [E2 _].
+  apply Z.eqb_eq in E2. rewrite Z.mul_comm. apply Z.div_exact; lia.
 Qed.
+
+(* ---- font records are well formed, without spacing *)
+Theorem builtin_font_wf b : In b fonts -> font_wf (bf_font b) /\ f_sp (bf_font b) = 0.
+Proof. exact (builtin_font_wf_aux b). Qed.
 
 (* ---- consequences for the index of a built-in font *)
 Theorem builtin_index_nth b n c :
